@@ -31,7 +31,9 @@ theorem strides_spec (D : Nat) (l : Nat) :
   unfold Gen.paramStridesDefault Gen.paramStridesBad
   constructor
   · simp
-  · simp
+  · -- robust to the orientation / an equivalent spelling of the comparison in the source
+    simp only [decide_eq_true_eq]
+    constructor <;> intro h <;> omega
 
 example : getStrides 2 none = .ok [1, 1] ∧ (getStrides 2 (some [3])).toOption = none ∧
     getStrides 2 (some [3, 2]) = .ok [3, 2] := by decide
@@ -1817,5 +1819,91 @@ example :
     linopAdjoint .data ⟨[3], [2], some true, some [2], false⟩ =
       .ok (.dataAdjoint, ⟨[3], [2], some true, some [2], false⟩) := by
   decide
+
+end SigpyVerif.C08
+
+namespace SigpyVerif.C08
+open SigpyVerif
+
+/-! ### which argument combinations raise -/
+
+/-- the admitted calls of `convolve`: shapes `b + (c_i,) + m`, `(c_o, c_i) + n` (resp. `b + m`, `n`), equal spatial rank
+    `D ≥ 1`, strides None or of length `D`, mode 'full' or 'valid' with an admitted size combination, positive extents
+    and strides, and not a complex filter with real data -/
+def ConvAdmitted (dsh fsh : List Int) (mode : Option Bool) (st : Option (List Int)) (mc cd cf : Bool) : Prop :=
+  ∃ (full : Bool) (b m n : List Int) (ci co : Int),
+    mode = some full ∧ dsh = dshOf mc b ci m ∧ fsh = fshOf mc co ci n ∧ m.length = n.length ∧ 1 ≤ n.length ∧
+    (mc = false → ci = 1 ∧ co = 1) ∧ stridesOk st n.length ∧ (full = true ∨ Gen.convValidRejects m n = false) ∧
+    (∀ x ∈ b ++ [ci, co] ++ m ++ n ++ stridesOf st n.length, 1 ≤ x) ∧ convOutcome cd cf ≠ .typeError
+
+/-- the admitted calls of the two adjoints: as for `convolve`, plus an `output` array with the element count of
+    `(B, c_o) + p`, and no complex frozen operand with a real `output` -/
+def AdjAdmitted (w : Bool) (dsh fsh : List Int) (mode : Option Bool) (st : Option (List Int)) (mc cd cf cy : Bool)
+    (ysh : List Int) : Prop :=
+  ∃ (full : Bool) (b m n : List Int) (ci co : Int),
+    mode = some full ∧ dsh = dshOf mc b ci m ∧ fsh = fshOf mc co ci n ∧ m.length = n.length ∧ 1 ≤ n.length ∧
+    (mc = false → ci = 1 ∧ co = 1) ∧ stridesOk st n.length ∧ (full = true ∨ Gen.convValidRejects m n = false) ∧
+    (∀ x ∈ b ++ [ci, co] ++ m ++ n ++ stridesOf st n.length, 1 ≤ x) ∧
+    shapeProd ysh = shapeProd (shapeProd b :: co :: zip3With (codeLen full) m n (stridesOf st n.length)) ∧
+    adjOutcome w full cd cf cy ≠ .typeError
+
+section raises
+variable {α : Type} [CommRing α]
+
+/-- **which calls of `convolve` raise** (the guard table as one statement): the model answers with an error exactly
+    on the calls that are not admitted — and on every admitted call with an array (`convolve_eq_index`). -/
+theorem convolve_raises_iff (dsh fsh : List Int) (mode : Option Bool) (st : Option (List Int)) (mc cd cf : Bool)
+    (data filt : Array α) :
+    (∃ e, convolveM dsh fsh mode st mc cd cf data filt = .error e) ↔ ¬ ConvAdmitted dsh fsh mode st mc cd cf := by
+  constructor
+  · rintro ⟨e, he⟩ ⟨full, b, m, n, ci, co, rfl, rfl, rfl, h3, h4, h5, h6, h7, h8, h9⟩
+    have := convolve_eq_index mc full b m n ci co st cd cf data filt h3 h4 h5 h6 h7 h8 h9
+    unfold convolve at this
+    rw [this] at he
+    cases he
+  · intro hna
+    cases hr : convolveM dsh fsh mode st mc cd cf data filt with
+    | error e => exact ⟨e, rfl⟩
+    | ok r =>
+      exfalso
+      obtain ⟨sh, a⟩ := r
+      obtain ⟨full, b, m, n, ci, co, h1, h2, h2', h3, h4, h5, h6, h7, h8, h9, -, -⟩ :=
+        convolve_shape_or_raise dsh fsh mode st mc cd cf data filt sh a hr
+      exact hna ⟨full, b, m, n, ci, co, h1, h2, h2', h3, h4, h5, h6, h7, h8, h9⟩
+
+/-- **which calls of the adjoints raise**: exactly the calls that are not admitted. -/
+theorem adjoint_raises_iff (conj re : α → α) (w : Bool) (dsh fsh : List Int) (mode : Option Bool)
+    (st : Option (List Int)) (mc cd cf cy : Bool) (ysh : List Int) (y other : Array α) :
+    (∃ e, adjointM conj re w dsh fsh mode st mc cd cf cy ysh y other = .error e) ↔
+      ¬ AdjAdmitted w dsh fsh mode st mc cd cf cy ysh := by
+  constructor
+  · rintro ⟨e, he⟩ ⟨full, b, m, n, ci, co, rfl, rfl, rfl, h3, h4, h5, h6, h7, h8, hy, h9⟩
+    cases w with
+    | true =>
+      have := data_adjoint_eq_index conj re mc full b m n ci co st cd cf cy ysh y other h3 h4 h5 h6 h7 h8 hy h9
+      unfold adjoint at this
+      rw [this] at he
+      cases he
+    | false =>
+      have := filter_adjoint_eq_index conj re mc full b m n ci co st cd cf cy ysh y other h3 h4 h5 h6 h7 h8 hy h9
+      unfold adjoint at this
+      rw [this] at he
+      cases he
+  · intro hna
+    cases hr : adjointM conj re w dsh fsh mode st mc cd cf cy ysh y other with
+    | error e => exact ⟨e, rfl⟩
+    | ok r =>
+      exfalso
+      obtain ⟨sh, a⟩ := r
+      obtain ⟨full, b, m, n, ci, co, h1, h2, h2', h3, h4, h5, h6, h7, h8, hy, h9, -, -⟩ :=
+        adjoint_shape_or_raise conj re w dsh fsh mode st mc cd cf cy ysh y other sh a hr
+      exact hna ⟨full, b, m, n, ci, co, h1, h2, h2', h3, h4, h5, h6, h7, h8, hy, h9⟩
+
+end raises
+
+/-- non-vacuity: an admitted call -/
+example : ConvAdmitted [2, 2, 3, 2] [3, 2, 2, 2] (some false) (some [2, 1]) true true true :=
+  ⟨false, [2], [3, 2], [2, 2], 2, 3, rfl, rfl, rfl, rfl, by decide, by decide, fun s h => by cases h; rfl, by decide,
+    by decide, by decide⟩
 
 end SigpyVerif.C08
